@@ -38,6 +38,7 @@ func checkC18(c *Check) {
 	c.Rule("R14", "the report lists the recipients that failed with their own status: a next hop's per-recipient answers are matched against the recipients it accepted, nothing else (C09.K12)", 1)
 	importRules(c, "C09", func(s *Check) { c09AcceptedListAfterAccept(s, "K12") }, map[string]bool{"K12": true}, "R14")
 	c18NoByteCut(c, "R15")
+	c18NullSenderNotConverted(c, "R16")
 	c.Rule("R12", "deliver: the error of Body / Commit is recorded for exactly the accepted recipients, the error of AddRcpt for exactly its recipient (a recipient's own refusal is what the report shows) (C01.R2)", 3)
 	{
 		sub := newCheck("C01", c.P, c.Tier)
